@@ -56,4 +56,20 @@ theorem tie_lockedMakeCall : lockedMakeCallShape =
 theorem tie_newLockedCalls : newLockedCallsShape = ["return &lockedGroup{ m: make(map[string]*sync.WaitGroup), }"] := by
   decide
 
+/-! ### ResourceManager -/
+open RM in
+/-- `GetResource`: the closure handed to `singleFlight.Do` — read-locked lookup, return the stored instance if
+present, else `create`, return its error, else store under the write lock and return the new instance. -/
+theorem tie_getResource : getResourceShape =
+    ["func{", stmt .g0, stmt .g1, stmt .g2, stmt .g3, "return resource, nil", "}",
+     stmt .g4, stmt .g5, "return nil, err", "}",
+     stmt .g6, "defer{", stmt .g8, "}", stmt .g7, "return resource, nil", "}",
+     "call manager.singleFlight.Do(key, func)", "if err != nil {", "return nil, err", "}",
+     "return val.(io.Closer), nil"] := by decide
+
+/-- the manager's flight group is the `SingleFlight` of singleflight.go (whose skeleton is tied above). -/
+theorem tie_newResourceManager : newResourceManagerShape =
+    ["return &ResourceManager{ resources: make(map[string]io.Closer), singleFlight: NewSingleFlight(), }"] := by
+  decide
+
 end GoZero.C07.Tie
